@@ -142,12 +142,13 @@ SOL_REAL_STUB = {
                   "operator new/delete (S1) and malloc/calloc/realloc/free of GSL (S2, link-time --wrap) with seeded address reuse, so that consecutive ODE drivers receive recycled addresses"],
 }
 SOL_ASSUME = ["H0 is diagonal (documented precondition of the expectation-value formula)", "gsl_set_error_handler_off() is installed (the default GSL handler aborts before SQuIDS can look at a status)",
-              "term switches, stepper and tolerances change only between Evolve calls", "callbacks never throw", "closed-form comparison only when the predicted tolerance is <= 1e-3"]
+              "stepper and tolerances change only between Evolve calls (term switches also from inside the PreDerive callback)", "callbacks never throw", "closed-form comparison only when the predicted tolerance is <= 1e-3"]
 SOL_RULE = ("plans are generated from (VERIF_SEED, run index): nx 1-9, nsun 2-6, nrhos 1-3, nscalars 0-3, all 32 switch masks, grid linear/log/user; steppers rk2 rk4 rkf45 rkck rk8pd "
             "(adaptive and fixed), msadams (adaptive), simstep (6 tableaux x 4 buffer modes x dydt_in on/off); operations evolve(dt>=0), switch toggle, stepper change, move "
             "construction, move assignment (into a fresh or a used solver; old object destroyed, or re-initialised, written, read back and advanced), step-size limits, Set_AnyNumerics, "
             "re-initialisation to another configuration or to the same layout at another initial time, an Evolve that ends in the stepper's hard error, expectation "
             "queries (8 overloads, x inside / at nodes / below / above the grid / a few units in the last place outside), a second solver of another or the same dimension on the thread, "
+            "a term switch flipped by the PreDerive callback in mid-Evolve, the clock and (C05) an expectation value read from inside PreDerive, single stepper settings changed between Evolve calls, a solver moved onto itself, "
             "rejected calls (bad grids, ini() with an unsupported dimension followed by use of the grid, operators of another dimension handed to all six expectation overloads). %s distinct = hash of "
             "(configuration, switch masks, stepper and mode per segment, number of distinct input buffers the right-hand side saw, operation kinds); non-trivial = at least one "
             "numerical Evolve with >=2 right-hand-side evaluations on >=2 different input buffers, or a move")
